@@ -701,7 +701,8 @@ class RotateLeftConstant(Logic):
         a = self.a.get()
         n = self.n
         w = self.a.getWidth()
-        self.r.put((a << n) | (a >> (w - n)))
+        # the rotation happens inside the operand width, also when r is wider
+        self.r.put(((a << n) | (a >> (w - n))) & ((1 << w) - 1))
 
 
 class RotateRightConstant(Logic):
@@ -731,7 +732,8 @@ class RotateRightConstant(Logic):
         a = self.a.get()
         n = self.n
         w = self.a.getWidth()
-        self.r.put((a >> n) | (a << (w - n)))
+        # the rotation happens inside the operand width, also when r is wider
+        self.r.put(((a >> n) | (a << (w - n))) & ((1 << w) - 1))
                 
 class Xor2(Logic):
     def __init__(self, parent, name: str, a: Wire, b: Wire, r: Wire):
